@@ -1,10 +1,15 @@
-//! E6 poolsim: one real chain + one real `TransactionPool` over a harness `BlockChain`
-//! implementation that forwards to the chain exactly like `servers::PoolToChainAdapter`, and a
-//! block-accepted hook that mirrors `ChainToPoolAndNetAdapter::block_accepted`
-//! (reconcile_block on Next|Reorg, truncate_reorg_cache, reconcile_reorg_cache on Reorg).
+//! E6 poolsim: one real chain + one real `TransactionPool`, wired as `servers::Server::new` wires
+//! them: the pool judges through the real `servers::PoolToChainAdapter`, and the chain's adapter is
+//! the real `ChainToPoolAndNetAdapter` (reconcile_block on Next|Reorg, truncate_reorg_cache,
+//! reconcile_reorg_cache on Reorg, header broadcast to a `Peers` object without connections).
 //! After every operation the pool must hold a jointly valid, fee-paying, mineable set.
 
-use crate::node::{fresh_dir, RecAdapter, StatusKind};
+use crate::node::{fresh_dir, StatusKind};
+use grin_chain::BlockStatus;
+use grin_servers::common::adapters::{ChainToPoolAndNetAdapter, PoolToChainAdapter};
+use grin_servers::common::hooks::ChainEvents;
+use grin_util::RwLock;
+use std::sync::Mutex;
 use crate::rng::{fnv64, SimRng};
 use crate::sim::{CaseResult, Violation};
 use crate::world::{ckey, CommitKey, OutInfo, World, WorldCfg};
@@ -44,6 +49,39 @@ impl PoolAdapter for SimRelay {
 			Ok(())
 		}
 	}
+}
+
+/// Chain event hook (the slot the node uses for logging and web hooks): records what was accepted.
+pub struct EventRec {
+	pub events: Arc<Mutex<Vec<(Hash, StatusKind)>>>,
+}
+
+impl ChainEvents for EventRec {
+	fn on_block_accepted(&self, block: &Block, status: BlockStatus) {
+		let k = match status {
+			BlockStatus::Next { .. } => StatusKind::Next,
+			BlockStatus::Fork { .. } => StatusKind::Fork,
+			BlockStatus::Reorg { .. } => StatusKind::Reorg,
+		};
+		self.events.lock().unwrap().push((block.hash(), k));
+	}
+}
+
+pub type RealPool = TransactionPool<PoolToChainAdapter, SimRelay>;
+
+/// Chain + pool + peers assembled like `servers::Server::new` does.
+pub fn assemble_node(dir: &std::path::Path, genesis: Block, relay: Arc<SimRelay>, cfg: PoolConfig) -> Result<(Arc<Chain>, Arc<RwLock<RealPool>>, Arc<grin_p2p::Peers>, Arc<Mutex<Vec<(Hash, StatusKind)>>>), String> {
+	let p2c = Arc::new(PoolToChainAdapter::new());
+	let pool = Arc::new(RwLock::new(TransactionPool::new(cfg, p2c.clone(), relay)));
+	let events = Arc::new(Mutex::new(vec![]));
+	let c2p = Arc::new(ChainToPoolAndNetAdapter::new(pool.clone(), vec![Box::new(EventRec { events: events.clone() })]));
+	let chain = Chain::init(dir.join("chain_data").to_str().unwrap().to_string(), c2p.clone(), genesis, pow::verify_size, false, None).map_err(|e| format!("{:?}", e))?;
+	let chain = Arc::new(chain);
+	p2c.set_chain(chain.clone());
+	let store = grin_p2p::store::PeerStore::new(dir.join("peers").to_str().unwrap()).map_err(|e| format!("peer store: {:?}", e))?;
+	let peers = Arc::new(grin_p2p::Peers::new(store, Arc::new(grin_p2p::DummyAdapter {}), grin_p2p::P2PConfig::default()));
+	c2p.init(peers.clone());
+	Ok((chain, pool, peers, events))
 }
 
 #[derive(Clone)]
@@ -157,8 +195,9 @@ pub enum Op {
 pub struct PoolSim<'w> {
 	world: &'w mut World,
 	chain: Arc<Chain>,
-	adapter: Arc<RecAdapter>,
-	pool: TransactionPool<PoolChain, SimRelay>,
+	events: Arc<Mutex<Vec<(Hash, StatusKind)>>>,
+	pool: Arc<RwLock<RealPool>>,
+	_peers: Arc<grin_p2p::Peers>,
 	relay: Arc<SimRelay>,
 	dir: std::path::PathBuf,
 	/// world block id of the node's head
@@ -187,28 +226,14 @@ fn tx_inputs(tx: &Transaction) -> Vec<CommitKey> {
 impl<'w> PoolSim<'w> {
 	pub fn new(world: &'w mut World, start: usize, tag: &str) -> Result<PoolSim<'w>, String> {
 		let dir = fresh_dir(tag);
-		let adapter = Arc::new(RecAdapter::default());
-		let chain = Chain::init(
-			dir.join("chain_data").to_str().unwrap().to_string(),
-			adapter.clone(),
-			world.genesis.clone(),
-			pow::verify_size,
-			false,
-			None,
-		)
-		.map_err(|e| format!("{:?}", e))?;
-		let chain = Arc::new(chain);
-		for id in world.path_to(start) {
-			chain
-				.process_block(world.blocks[id].block.clone(), world.opts)
-				.map_err(|e| format!("base block #{}: {:?}", id, e))?;
-		}
-		adapter.events.lock().unwrap().clear();
 		let relay = Arc::new(SimRelay {
 			fail_next_stem: std::sync::atomic::AtomicBool::new(false),
 			stem_relay_failed: std::sync::atomic::AtomicU64::new(0),
 		});
-		let pool = TransactionPool::new(
+		let (chain, pool, peers, events) = assemble_node(
+			&dir,
+			world.genesis.clone(),
+			relay.clone(),
 			PoolConfig {
 				accept_fee_base: global::get_accept_fee_base(),
 				reorg_cache_period: 30,
@@ -216,15 +241,20 @@ impl<'w> PoolSim<'w> {
 				max_stempool_size: 50,
 				mineable_max_weight: global::max_block_weight(),
 			},
-			Arc::new(PoolChain { chain: chain.clone() }),
-			relay.clone(),
-		);
+		)?;
+		for id in world.path_to(start) {
+			chain
+				.process_block(world.blocks[id].block.clone(), world.opts)
+				.map_err(|e| format!("base block #{}: {:?}", id, e))?;
+		}
+		events.lock().unwrap().clear();
 		let base_blocks = world.blocks.len();
 		Ok(PoolSim {
 			world,
 			chain,
-			adapter,
+			events,
 			pool,
+			_peers: peers,
 			relay,
 			dir,
 			head: start,
@@ -266,7 +296,11 @@ impl<'w> PoolSim<'w> {
 	/// Inputs currently claimed by pooled (tx + stem) transactions.
 	fn pool_inputs(&self) -> BTreeSet<CommitKey> {
 		let mut s = BTreeSet::new();
-		for t in self.pool.txpool.all_transactions().iter().chain(self.pool.stempool.all_transactions().iter()) {
+		let pooled: Vec<Transaction> = {
+			let p = self.pool.read();
+			p.txpool.all_transactions().into_iter().chain(p.stempool.all_transactions().into_iter()).collect()
+		};
+		for t in pooled.iter() {
 			for k in tx_inputs(t) {
 				s.insert(k);
 			}
@@ -311,24 +345,19 @@ impl<'w> PoolSim<'w> {
 		Some(tx)
 	}
 
-	/// Mirror of ChainToPoolAndNetAdapter::block_accepted for every block the chain accepted.
+	/// The pool was reconciled by the real ChainToPoolAndNetAdapter while the block was processed; here
+	/// only the simulator's own notion of the head follows the recorded events.
 	fn absorb_block_events(&mut self) {
-		let events: Vec<(Hash, StatusKind)> = std::mem::take(&mut *self.adapter.events.lock().unwrap());
+		let events: Vec<(Hash, StatusKind)> = std::mem::take(&mut *self.events.lock().unwrap());
 		for (hash, kind) in events {
 			let id = match self.world.id_of_hash(&hash) {
 				Some(i) => i,
 				None => continue,
 			};
-			let b = self.world.blocks[id].block.clone();
 			if kind == StatusKind::Next || kind == StatusKind::Reorg {
-				let _ = self.pool.reconcile_block(&b);
-				// nothing ages out within a run: cutoff far in the past
-				let cutoff = chrono::Utc::now() - chrono::Duration::minutes(30);
-				self.pool.truncate_reorg_cache(cutoff);
 				self.head = id;
 			}
 			if kind == StatusKind::Reorg {
-				let _ = self.pool.reconcile_reorg_cache(&b.header);
 				self.probe("reorg_reconciled");
 			}
 		}
@@ -386,9 +415,8 @@ impl<'w> PoolSim<'w> {
 				out
 			}
 			Op::MinePool { .. } => {
-				let txs = self
-					.pool
-					.prepare_mineable_transactions()
+				let prepared = self.pool.read().prepare_mineable_transactions();
+				let txs = prepared
 					.map_err(|e| viol("prepare-mineable-failed", format!("step {}: {:?}", self.step, e)))?;
 				let n = txs.len();
 				if n > 0 {
@@ -399,7 +427,7 @@ impl<'w> PoolSim<'w> {
 			}
 			Op::MineSubset { conflict, r } => {
 				let mut rng = SimRng::new(*r);
-				let mut all = self.pool.txpool.all_transactions();
+				let mut all = self.pool.read().txpool.all_transactions();
 				rng.shuffle(&mut all);
 				let k = if all.is_empty() { 0 } else { rng.usize_below(all.len() + 1) };
 				let mut txs: Vec<Transaction> = vec![];
@@ -507,7 +535,7 @@ impl<'w> PoolSim<'w> {
 				format!("reorg depth {} via {} blocks", depth, new_ids.len())
 			}
 			Op::ShrinkCapacity { to } => {
-				self.pool.config.max_pool_size = *to;
+				self.pool.write().config.max_pool_size = *to;
 				format!("capacity {}", to)
 			}
 		};
@@ -541,7 +569,8 @@ impl<'w> PoolSim<'w> {
 				// an output created by a pooled tx and not yet spent by another pooled tx
 				let used = self.pool_inputs();
 				let mut cands: Vec<OutInfo> = vec![];
-				for t in self.pool.txpool.all_transactions() {
+				let pooled_txs = self.pool.read().txpool.all_transactions();
+				for t in pooled_txs {
 					for o in t.outputs() {
 						let k = ckey(&o.commitment());
 						if !used.contains(&k) {
@@ -561,7 +590,7 @@ impl<'w> PoolSim<'w> {
 				}
 			}
 			Submit::FluffStemmed => {
-				let stemmed = self.pool.stempool.all_transactions();
+				let stemmed = self.pool.read().stempool.all_transactions();
 				if stemmed.is_empty() {
 					None
 				} else {
@@ -574,7 +603,8 @@ impl<'w> PoolSim<'w> {
 			Submit::DependentTwoParents => {
 				let used = self.pool_inputs();
 				let mut per_tx: Vec<OutInfo> = vec![];
-				for t in self.pool.txpool.all_transactions() {
+				let pooled_txs = self.pool.read().txpool.all_transactions();
+				for t in pooled_txs {
 					for o in t.outputs() {
 						let k = ckey(&o.commitment());
 						if !used.contains(&k) {
@@ -596,7 +626,7 @@ impl<'w> PoolSim<'w> {
 			}
 			Submit::Conflict => {
 				let ledger = self.world.blocks[self.head].ledger.clone();
-				let cands: Vec<OutInfo> = self.pool.txpool.all_transactions().iter().flat_map(|t| tx_inputs(t)).filter_map(|k| ledger.get(&k).cloned()).collect();
+				let cands: Vec<OutInfo> = self.pool.read().txpool.all_transactions().iter().flat_map(|t| tx_inputs(t)).filter_map(|k| ledger.get(&k).cloned()).collect();
 				if cands.is_empty() {
 					None
 				} else {
@@ -607,7 +637,7 @@ impl<'w> PoolSim<'w> {
 				}
 			}
 			Submit::Duplicate => {
-				let all = self.pool.txpool.all_transactions();
+				let all = self.pool.read().txpool.all_transactions();
 				if all.is_empty() {
 					None
 				} else {
@@ -616,7 +646,7 @@ impl<'w> PoolSim<'w> {
 				}
 			}
 			Submit::Aggregated => {
-				let all = self.pool.txpool.all_transactions();
+				let all = self.pool.read().txpool.all_transactions();
 				if all.len() >= 2 {
 					let a = all[0].clone();
 					let b = all[all.len() - 1].clone();
@@ -646,12 +676,12 @@ impl<'w> PoolSim<'w> {
 			}
 			Submit::AggregatedUnderFee => {
 				// a generous A goes into the txpool first (fluff), then AB with a near-free B
-				if free.len() >= 2 && self.pool.txpool.size() + 2 <= self.pool.config.max_pool_size {
+				if free.len() >= 2 && self.pool.read().txpool.size() + 2 <= self.pool.read().config.max_pool_size {
 					let a = self.make_spend(&[free[0].clone()], 1, Self::plain_fee(1, 1) * 6, None, &mut rng);
 					let b = self.make_spend(&[free[1].clone()], 1, 1_000 + rng.below(1000), None, &mut rng);
 					match (a, b) {
 						(Some(a), Some(b)) => {
-							if self.pool.add_to_pool(TxSource::Broadcast, a.clone(), false, &header).is_ok() {
+							if self.pool.write().add_to_pool(TxSource::Broadcast, a.clone(), false, &header).is_ok() {
 								self.accepted.push(a.clone());
 								expect = Some(false);
 								self.probe("aggregate_with_underfee_remainder_submitted");
@@ -688,7 +718,7 @@ impl<'w> PoolSim<'w> {
 			Submit::UnderFee => {
 				if let Some(x) = free.first().cloned() {
 					expect = Some(false);
-					if self.pool.total_size() > self.pool.config.max_pool_size {
+					if self.pool.read().total_size() > self.pool.read().config.max_pool_size {
 						self.probe("underfee_submitted_at_capacity");
 					}
 					let fee = Self::plain_fee(1, 1).saturating_sub(1 + rng.below(1000)).max(1);
@@ -777,8 +807,8 @@ impl<'w> PoolSim<'w> {
 			// no relay peer for this one: add_to_pool falls back to the txpool
 			self.relay.fail_next_stem.store(true, std::sync::atomic::Ordering::SeqCst);
 		}
-		let over_capacity = self.pool.txpool.size() >= self.pool.config.max_pool_size;
-		let res = self.pool.add_to_pool(TxSource::Broadcast, tx.clone(), stem, &header);
+		let over_capacity = self.pool.read().txpool.size() >= self.pool.read().config.max_pool_size;
+		let res = self.pool.write().add_to_pool(TxSource::Broadcast, tx.clone(), stem, &header);
 		let cls = match &res {
 			Ok(()) => "accepted".to_string(),
 			Err(e) => {
@@ -821,8 +851,8 @@ impl<'w> PoolSim<'w> {
 		if header.hash() != self.world.blocks[self.head].hash {
 			return Err(viol("harness-head-out-of-sync", format!("step {}: node head {} vs model #{}", step, header.hash(), self.head)));
 		}
-		let txs = self.pool.txpool.all_transactions();
-		let stem = self.pool.stempool.all_transactions();
+		let txs = self.pool.read().txpool.all_transactions();
+		let stem = self.pool.read().stempool.all_transactions();
 		// no two entries share an input
 		let mut seen: BTreeSet<CommitKey> = BTreeSet::new();
 		for t in &txs {
@@ -833,7 +863,7 @@ impl<'w> PoolSim<'w> {
 			}
 		}
 		// every entry on its own
-		let base = self.pool.config.accept_fee_base;
+		let base = self.pool.read().config.accept_fee_base;
 		for t in txs.iter().chain(stem.iter()) {
 			if let Err(e) = t.validate(Weighting::AsTransaction) {
 				return Err(viol("pool-entry-invalid", format!("step {} ({}): a pooled transaction fails standalone validation: {:?}", step, ctx, e)));
@@ -880,8 +910,13 @@ impl<'w> PoolSim<'w> {
 			}
 		}
 		// the mineable set is a subset that validates (assembling it into a real block is done by MinePool)
-		match self.pool.prepare_mineable_transactions() {
+		let mineable = self.pool.read().prepare_mineable_transactions();
+		match mineable {
 			Ok(m) => {
+				// the txpool as a whole applies on the head (checked above), so something of it is mineable
+				if m.is_empty() && !txs.is_empty() {
+					return Err(viol("mineable-set-empty", format!("step {} ({}): the txpool holds {} transaction(s) that apply on the head, yet nothing is offered for mining", step, ctx, txs.len())));
+				}
 				if !m.is_empty() {
 					match transaction::aggregate(&m) {
 						Ok(a) => {
